@@ -2,7 +2,7 @@
 import struct
 from fractions import Fraction
 
-from vlib import basic
+from vlib import basic, translated
 
 LEVEL = 'proof'
 RULE = ('one case = one generator state walked on the implementation (all 2^24 of them, in orbit order), one '
@@ -15,11 +15,17 @@ EXPLANATION = ('theorems (PcbV.Props.C39): every state has minimal period 2^24 u
                'RANDOMIZE determinism over all histories; correspondence: orbit hash over all 2^24 transitions, values, '
                'all 65536 integer RANDOMIZE arguments, sampled single/double arguments, Session histories compared '
                'with the compiled Lean model; oracle: bitmap walk of the implementation\'s cycle, an LCG derived from '
-               'the observed sequence, exact fractions for the returned MBF singles, relational checks for reseeding')
+               'the observed sequence, exact fractions for the returned MBF singles, relational checks for reseeding'
+               '; source tie: Randomiser._cycle is translated mechanically from the current Python AST into '
+               'PcbV.Gen.Translated.cycle (gen/py2lean.py), proved equal to the model cycle (translated_cycle_eq) '
+               'and compared with the real method on a real Randomiser (vlib/translated.py)')
 TRUSTED_BASE = ['model PcbV.Model.Rnd is a hand transcription of values/randomiser.py (constants regenerated into '
                 'PcbV.Gen.Rnd); the returned value is modelled by the closed form of from_int(seed).idiv(from_int(2^24)), '
                 'validated bit-for-bit by correspondence, not derived from a model of MBF division',
-                'PcbV.C39.mbfValue is the definition of the value of a 4-byte MBF single used in the value theorems']
+                'PcbV.C39.mbfValue is the definition of the value of a 4-byte MBF single used in the value theorems',
+                'translator gen/py2lean.py + PcbV.PyInt (Python int semantics of % and ^ & | in Lean), validated by '
+                'vlib/translated.py against the real _cycle and Python\'s own operators; it covers _cycle only, the rest '
+                'of randomiser.py stays a hand transcription']
 ASSUMPTIONS = ['conversion of RND/RANDOMIZE arguments to their byte representation (values.to_single, literals, CVS/CVD) '
                'is covered by the number-format properties; here only exactly representable arguments are generated',
                'RANDOMIZE without argument (console prompt) is not driven']
@@ -788,6 +794,7 @@ def long_walk(ctx, ref):
 
 
 def run(ctx):
+    translated.check_cycle(ctx)
     ctx.log('walking the generator cycle on the implementation')
     ref = orbit(ctx)
     ctx.log('values')
